@@ -2,7 +2,7 @@ PLAN['C20'] = dict(
     level='exploration',
     # asan-vb / asan-i64 case indices are a prefix of the asan ones for the same precision: the case
     # generator does not depend on the variant, so a vendor-only mismatch is decided bitwise by variant asan
-    units=std_units('C20', [('asan', 'sdcz', 4000, 60000), ('asan-vb', 'sdcz', 1200, 20000), ('asan-i64', 'sdcz', 1200, 20000)], chunk=100),
+    units=std_units('C20', [('asan', 'sdcz', 8000, 60000), ('asan-vb', 'sdcz', 2400, 20000), ('asan-i64', 'sdcz', 2400, 20000)], chunk=100),
     rule='one case = one history factor, solve*, free through c_fortran_?gssv_ over 1..4 handles (sequential / randomly interleaved / phased), '
          'each handle with its own seeded matrix (10 structurally nonsingular pattern classes x 8 value classes, n 1..40, thorough tail n 80..200) in 1-based CSC, '
          'some handles sharing the same caller arrays; 0..4 solves per handle with nrhs 1..4, ldb = n + 0..5, 30% repeats of an earlier b; one tuning table per case; '
